@@ -45,13 +45,13 @@ def check_design(ctx, thorough=False):
     """One TLC run (-continue) over the whole reachable graph of BinnerHistory: the clauses hold without a memo and with a
     memo keyed on the points, for the three kinds of binner; exactly the three design mutants are refuted."""
     cfg = 'MC_BinnerHistory_design%s.cfg' % ('_thorough' if thorough else '')
-    res = run_tlc('MC_BinnerHistory', cfg, workers=4, coverage=True, allow_violation=True, extra=['-continue'])
+    res = run_tlc('MC_BinnerHistory', cfg, workers=2, allow_violation=True, extra=['-continue'])
     ctx.add_tlc('binner-history-design', res)
     got = set(re.findall(r'Invariant (\S+) is violated', res.out))
     if got != set(MUTANT_INVARIANTS):
         raise Machinery('BinnerHistory: expected TLC to refute exactly %r, got %r\n%s' % (sorted(MUTANT_INVARIANTS), sorted(got), res.out[-1500:]))
-    if res.distinct == 0 or not any(v[1] for v in res.action_cov.values()):
-        raise Machinery('BinnerHistory: no state / no action taken')
+    if res.distinct < 100 or res.generated <= res.distinct or res.depth < 3:
+        raise Machinery('BinnerHistory: design run explored %d states to depth %d' % (res.distinct, res.depth))
     return res
 
 
@@ -94,10 +94,10 @@ class Alphabet:
         return 'first-call'
 
 
-def generate(ctx, thorough=False, nwalks=None):
+def generate(ctx, thorough=False, nwalks=None, unit=None):
     """(alphabet, walks): every ordered pair of operations (exhaustive, two calls) + random longer sequences."""
     sfx = '_thorough' if thorough else ''
-    res = run_tlc('MC_BinnerHistory', 'EX_BinnerHistory_pairs%s.cfg' % sfx, workers=1)
+    res = run_tlc('MC_BinnerHistory', 'EX_BinnerHistory_pairs%s.cfg' % sfx, workers=1 if not thorough else 4)
     ctx.add_tlc('binner-history-pairs', res)
     if res.violated:
         raise Machinery('BinnerHistory (pairs) violates %s\n%s' % (res.violated, res.error_trace))
@@ -105,7 +105,7 @@ def generate(ctx, thorough=False, nwalks=None):
     pairs = res.tagged('WALK')
     if len(rows) != 1:
         raise Machinery('BinnerHistory: %d operation tables exported' % len(rows))
-    unit = (0.5, 2.0, 8.0, 0.125)[ctx.seed % 4]
+    unit = unit or (8.0, 16.0, 32.0, 64.0)[ctx.seed % 4]        # lattice unit in cm-1 (dyadic: every coordinate is an exact float)
     A = Alphabet(rows[0], unit)
     nops = len(A.table['flux'])
     if len(pairs) != nops * nops:
@@ -260,9 +260,10 @@ def same_result(a, b):
     return bad
 
 
-def replay(A, kind, make, walks, ref=None, tol=1e-12, store=None, with_fresh=True):
+def replay(A, kind, make, walks, ref=None, tol=1e-12, store=None, with_fresh=True, store_last_only=False):
     """Replay every sequence on ONE binner made by make(); each call is also made on a fresh make().
-    ref: function binner-independent -> (centres, widths) the binner was built with; default: the alphabet's.
+    ref: function -> (centres, widths) the binner was built with; default: the alphabet's.
+    store: see call(); store_last_only: only the output dictionary of the last call of a sequence goes through it.
     Yields (walk, problems) with problems = [(step, tag, detail)]."""
     for w in walks:
         ops = w['ops']
@@ -271,7 +272,7 @@ def replay(A, kind, make, walks, ref=None, tol=1e-12, store=None, with_fresh=Tru
         problems = []
         for j, op in enumerate(ops):
             try:
-                rec = call(b, A, op, store=store)
+                rec = call(b, A, op, store=store if (not store_last_only or j == len(ops) - 1) else None)
             except Machinery:
                 raise
             except Exception as ex:
